@@ -28,6 +28,10 @@ RULE = (
 
 BOUNDS = [(0, 0), (3, 3), (0, 1), (-5, 5), (0, 10), (0, 999), (0, 1000), (0, 1001), (0, 1002), (-1000, 1000),
           (0, 10**6), (-(MAXSIZE - 1), MAXSIZE), (0, MAXSIZE), (-7, -7), (-3, -1), (32, 128)]
+WIDE = []
+for _w in list(range(1001, 1041)) + [1999, 2000, 2001, 9999, 10000, 10001, 19999, 20000, 99999, 100001, 199999, 999999, 1000001, 1999999]:
+    for _lo in (0, 1, -1000, -(_w // 2)):
+        WIDE.append((_lo, _lo + _w))
 FBOUNDS = [(0.0, 1.0), (-1.0, 1.0), (1.5, 1.5), (9.0, 10.0), (-100.0, 100.0)]
 
 
@@ -59,6 +63,8 @@ def units(tier, seed):
     for lo, hi in BOUNDS:
         us.append({"kind": "decider", "lo": lo, "hi": hi})
         us.append({"kind": "dsge-decider", "lo": lo, "hi": hi})
+    for lo, hi in WIDE:
+        us.append({"kind": "decider", "lo": lo, "hi": hi})
     us.append({"kind": "decider-defaults"})
     return us
 
